@@ -69,6 +69,7 @@ func Init(e *Engine, highlighter func([]rune) string) {
 // Refresh recomputes and redisplays the entire readline interface, except
 // the first lines of the primary prompt when the latter is a multiline one.
 func (e *Engine) Refresh() {
+	core.YieldPoint("refresh.entry")
 	fmt.Print(term.HideCursor)
 
 	// Go back to the first column, and if the primary prompt
@@ -85,6 +86,7 @@ func (e *Engine) Refresh() {
 	// Get all positions required for the redisplay to come:
 	// prompt end (thus indentation), cursor positions, etc.
 	e.computeCoordinates(true)
+	core.YieldPoint("refresh.computed")
 
 	// Print the line, and any of the secondary and right prompts.
 	e.displayLine()
@@ -95,6 +97,7 @@ func (e *Engine) Refresh() {
 	e.displayHelpers()
 	e.cursorHintToLineStart()
 	e.lineStartToCursorPos()
+	core.YieldPoint("refresh.beforeshow")
 	fmt.Print(term.ShowCursor)
 }
 
@@ -128,6 +131,7 @@ func (e *Engine) ResetHelpers() {
 // hints, completions and some right prompts, the shell will put the
 // display at the start of the line immediately following the line.
 func (e *Engine) AcceptLine() {
+	core.YieldPoint("acceptline.entry")
 	e.CursorToLineStart()
 
 	e.computeCoordinates(false)
